@@ -93,7 +93,7 @@ theorem plug_inv {N} (lvl : Nat) (cont : Cont N) (v : Value N) (k : Bytes) (h : 
     · exact ⟨hv, hd⟩
     · exact h w hw
   | obj ms =>
-    simp only [Cont.plug, ContInv] at h ⊢
+    simp only [Cont.plug, ContInv, mapInsert_eq] at h ⊢
     refine ⟨?_, nodup_insertKV k v ms (hs ms rfl) h.2.1, sorted_insertKV k v ms h.2.2⟩
     intro kv hkv
     rcases mem_insertKV k v ms kv hkv with rfl | hkv'
@@ -295,7 +295,7 @@ theorem step_inv {N} (c : Cfg N) (t : Tok N) (h : CfgInv c) (hr : c.running = tr
             simp only [Cont.obj.injEq] at e2
             subst e2
             intro hmem
-            exact hkey ((hasKey_iff _ _).mpr hmem)
+            exact hkey (by rw [mapHasKey_eq]; exact (hasKey_iff _ _).mpr hmem)
           split
           · exact push_inv c _ _ _ _ h (Or.inl ⟨rfl, rfl⟩) h.2.1 hk hk'
           · exact push_inv c _ _ _ _ h (Or.inr ⟨rfl, rfl⟩) h.2.1 hk hk'
